@@ -2,6 +2,7 @@ import WM.Proto
 import WM.Spec.Search
 import WM.Model.Compile
 import WM.Spec.SearchStats
+import WM.Model.SearchCursor
 /-!
 Protocol handler of family `c01` (shared with `c09`).
 
@@ -24,6 +25,10 @@ hits MODE INDEX (Q ...)              -> (((id score) ...) ...)    spec: ascendin
 rank MODE INDEX (Q ...)              -> (((id score) ...) ...)    spec: ranking order
 compile MODE nc scored INDEX (Q ...) -> ((((id score) ...) ...) ...)  model: per query, per segment
 wf INDEX (Q ...)                     -> (segments-ok q-ok ...)    hypotheses of the theorems (0/1)
+cursor MODE nc scored INDEX (Q ...) (OP ...)
+                                     -> ((TRACE ...) ...)         cursor model: per query, per segment
+   OP = n | r | (s delta)      next() | m = m.replace() | skip_to(id() + delta), applied cyclically while active
+   TRACE = ((id score) ...)    what id()/score() read before each call | notimpl | (err kind)
 ```
 -/
 namespace WM.Drv.C01
@@ -144,6 +149,46 @@ def mode? (e : SExp) (ix : Index) : Option LeafScore :=
     pure (bm25fLeaf p ix)
   | _ => none
 
+/-- one call of the stepping program of the `cursor` request -/
+inductive POp where
+  | next | repl | skip (d : Nat)
+  deriving Inhabited
+
+def pop? (e : SExp) : Option POp :=
+  match e with
+  | .atom "n" => some .next
+  | .atom "r" => some .repl
+  | .list [.atom "s", d] => POp.skip <$> d.nat?
+  | _ => none
+
+/-- step the cursor tree with the program (cyclically) while it is active; the trace is what `id()` and
+    `score()` read before each call -/
+def stepCursor (prog : Array POp) : Nat → Nat → WM.Matcher.Any → List (Nat × Rat) →
+    Except WM.Matcher.Err (List (Nat × Rat))
+  | 0, _, _, acc => .ok acc.reverse
+  | fuel + 1, j, m, acc =>
+    if (WM.Matcher.ops m.1).isActive m.2 then do
+      let x ← (WM.Matcher.ops m.1).id m.2
+      let r ← (WM.Matcher.ops m.1).score m.2
+      let m' ← match prog[j % prog.size]! with
+        | POp.next => WM.Matcher.CmdR.run .next m
+        | POp.skip d => WM.Matcher.CmdR.run (.skipTo (x + d)) m
+        | POp.repl => WM.Matcher.CmdR.run .replace0 m
+      stepCursor prog fuel (j + 1) m' ((x, r) :: acc)
+    else .ok acc.reverse
+
+def showErr : WM.Matcher.Err → String
+  | .notImpl => "notimpl"
+  | e => "(err " ++ (toString (repr e)).replace " " "" ++ ")"
+
+def showTrace (ls : LeafScore) (prog : Array POp) (s : Segment) (ctx : Ctx) (q : Query) : String :=
+  match build ls balancedOracle s ctx q with
+  | .error e => showErr e
+  | .ok m =>
+    match stepCursor prog ((s.size + 2) * (prog.size + 1)) 0 m [] with
+    | .error e => showErr e
+    | .ok tr => showList (fun p => "(" ++ toString p.1 ++ " " ++ showRat p.2 ++ ")") tr
+
 def showHits (hs : List Hit) : String :=
   showList (fun h => "(" ++ toString h.id ++ " " ++ showRat h.score ++ ")") hs
 
@@ -173,6 +218,15 @@ def handle : List SExp → String
       | some ls => showList (fun q => showList (fun s => showHits (compile ls balancedOracle s ⟨nc, sc⟩ q)) ix) qs
       | none => "bad-op"
     | _, _, _, _ => "bad-op"
+  | [.atom "cursor", m, nc, sc, idx, .list qs, .list prog] =>
+    match nc.bool?, sc.bool?, index? idx, qs.mapM query?, prog.mapM pop? with
+    | some nc, some sc, some ix, some qs, some prog =>
+      if prog.any (fun o => match o with | POp.next => true | _ => false) then
+        match mode? m ix with
+        | some ls => showList (fun q => showList (fun s => showTrace ls prog.toArray s ⟨nc, sc⟩ q) ix) qs
+        | none => "bad-op"
+      else "bad-op"
+    | _, _, _, _, _ => "bad-op"
   | [.atom "wf", idx, .list qs] =>
     match index? idx, qs.mapM query? with
     | some ix, some qs =>
